@@ -433,7 +433,8 @@ func paths(quick bool) []string {
 		out = append(out, "/api/v1/"+c, "/a%20b/api/"+c)
 	}
 
-	out = append(out, "/api/", "/api/v1/", "/api//v1", "/")
+	// empty and dot segments: the upstream gets the path that was matched and authorised, octet by octet
+	out = append(out, "/api/", "/api/v1/", "/api//v1", "/", "/api/v1//x", "/api/v1/./x", "/api/v1/y/../x")
 
 	if quick {
 		var q []string
